@@ -327,11 +327,12 @@ class Gen:
 
     def item(self, d: FDesc, depth, nonnull=False):
         if d.ent is not None:
-            return self.entity(d.ent, depth + 1)
+            return self.entity(d.ent, depth + 1, want_default=getattr(self, "_force_default", None))
         return self.prim(d.kafka)
 
     def field(self, d: FDesc, depth, want_default=None):
         r = self.r
+        self._force_default = want_default
         if d.tag is not None:
             if want_default is None:
                 want_default = r.random() < 0.4
@@ -356,10 +357,12 @@ class Gen:
             self.count("nullable:nonnull")
         return self.item(d, depth)
 
-    def entity(self, cls, depth=0, resolve_default=None):
+    def entity(self, cls, depth=0, resolve_default=None, want_default=None):
+        """want_default: None = random per tagged field; True/False = force every tagged field (at
+        every nesting level) to hold / not to hold its default"""
         vals = []
         for d in describe(cls):
-            v = self.field(d, depth)
+            v = self.field(d, depth, want_default=want_default)
             if v == ("__default__",):
                 v = default_value(cls, d)
             vals.append(v)
